@@ -3,17 +3,21 @@ package replication
 // MessageDB-backed variant of the replication world (thorough tier of C02): every node's
 // durable log is a real channelstore.MessageDBFactory (pkg/db/message on Pebble, tmpfs),
 // so the exact-base append mode and ReplaceRecoverySuffix of pkg/db/message are in the loop.
-// Every instance opens three fresh databases under /dev/shm (closed and removed when the
-// instance is closed), so instances share nothing and the channel identity stays "1:w".
+// Every instance opens three fresh databases (closed and removed when the instance is
+// closed), so instances share nothing and the channel identity stays "1:w". The engines
+// run on one in-memory vfs through the repository's `verif` build-tag seam
+// (pkg/db/internal/engine.VerifFS, set by the overlay-injected helper pkg/db/zzverifmdb).
 
 import (
 	"context"
 	"fmt"
-	"os"
+	"io"
+	"log"
 	"sync/atomic"
 	"time"
 
 	channelstore "github.com/WuKongIM/WuKongIM/pkg/channel/store"
+	"github.com/WuKongIM/WuKongIM/pkg/db/zzverifmdb"
 )
 
 type vwMDBPool struct {
@@ -22,8 +26,10 @@ type vwMDBPool struct {
 }
 
 func newVWMDBPool() (*vwMDBPool, error) {
-	dir, err := os.MkdirTemp("/dev/shm", "verif-c02-mdb-")
-	if err != nil {
+	zzverifmdb.Enable()
+	log.SetOutput(io.Discard) // Pebble's per-open "Found 0 WALs" lines
+	dir := "/vmdb"
+	if err := zzverifmdb.MkdirAll(dir); err != nil {
 		return nil, err
 	}
 	return &vwMDBPool{dir: dir}, nil
@@ -35,7 +41,7 @@ func (p *vwMDBPool) lease() *vwBackendLease {
 	opened := make([]*channelstore.MessageDBFactory, 0, vwN)
 	for i := 0; i < vwN; i++ {
 		path := fmt.Sprintf("%s/node%d", base, i+1)
-		if err := os.MkdirAll(path, 0o755); err != nil {
+		if err := zzverifmdb.MkdirAll(path); err != nil {
 			panic(err)
 		}
 		f := channelstore.NewMessageDBFactoryWithOptions(path, channelstore.MessageDBFactoryOptions{CommitFlushWindow: time.Microsecond})
@@ -46,7 +52,7 @@ func (p *vwMDBPool) lease() *vwBackendLease {
 		for _, f := range opened {
 			_ = f.Close()
 		}
-		_ = os.RemoveAll(base)
+		_ = zzverifmdb.RemoveAll(base)
 	}
 	return lease
 }
@@ -70,4 +76,7 @@ func (p *vwMDBPool) selfTest() error {
 	return nil
 }
 
-func (p *vwMDBPool) close() { _ = os.RemoveAll(p.dir) }
+func (p *vwMDBPool) close() {
+	_ = zzverifmdb.RemoveAll(p.dir)
+	zzverifmdb.Disable()
+}
